@@ -21,8 +21,8 @@ Extraction "model.ml"
   amap_init get_app_pointer_idx get_unused_index remove_app_ptr lookup_index astep arun
   ostep orun owner_at held live_tokens code_overwrite_releases
   world_init wstep wstep_spec wstep_gen wrun cb_owner_at reachable owned_keys code_move_assign_releases
-  invoke invoke_spec
+  invoke invoke_spec cv sv
   bytes_le le_val write read encode decode store_int load_int load_cv_ptr load_range range_footprint range_checked
   store_ptr load_ptr store_bits load_bits code_cv_reads_guest_width
   run spec nest closes crossings rans world_slot_of
-  sizeof alignof offsets labi_host labi_lp32 labi_lp32_16 labi_wide.
+  sizeof alignof offsets labi_host labi_lp32 labi_lp32_16 labi_wide labi_lp32_64.
